@@ -115,7 +115,7 @@ func (in *Interp) intrinsic(fn *ssa.Function, args []Val) (Val, bool) {
 		} else {
 			r, _ := in.s.CheckPC(in.pc, []*Term{c}, nil)
 			if r == RUnknown {
-				in.failures = append(in.failures, Failure{Msg: fmt.Sprint(args[1]), Path: in.ex.Trace(), Kind: "assert", Status: "unknown"})
+				in.failures = append(in.failures, Failure{Msg: fmt.Sprint(args[1]), Path: in.ex.Trace(), Kind: "assert", Status: "unknown", Chooses: in.ex.Chooses()})
 				return nil, true
 			}
 			ok = r == RSat
@@ -241,7 +241,7 @@ func (in *Interp) assertTrue(c *Term, msg string) {
 		}
 		in.failures = append(in.failures, Failure{Msg: msg, Model: m, Path: in.ex.Trace(), Kind: "assert", Status: "sat", Chooses: in.ex.Chooses()})
 	case RUnknown:
-		in.failures = append(in.failures, Failure{Msg: msg, Path: in.ex.Trace(), Kind: "assert", Status: "unknown"})
+		in.failures = append(in.failures, Failure{Msg: msg, Path: in.ex.Trace(), Kind: "assert", Status: "unknown", Chooses: in.ex.Chooses()})
 	}
 	// continue under the assertion (no feasibility query: an infeasible continuation only yields vacuous checks)
 	if c.IsConst && c.C == 0 {
